@@ -121,7 +121,7 @@ def run_once(ctx, mono, d, truth, order_names, lo, hi, chunk, wit0, default_wind
 def run(ctx):
     rng = ctx.rng
     from sedfitter.convolve import convolve_model_dir_monochromatic as mono
-    nexh = 3 if ctx.quick else 5
+    nexh = 3 if ctx.quick else 6
     ctx.rule = ('per-file packages with 2..9 wavelengths, 1..3 apertures, 1..5 models; every window whose ends lie below/on/between/above the tabulated '
                 'wavelengths (exhaustive for n_wav<=%d, sampled above) x every chunk size 1..n_wav (via max_ram) + the default window; file set and contents '
                 'must be identical across chunk sizes. a case = one (window, chunk) run; non-trivial = >=1 wavelength strictly inside') % nexh
@@ -133,7 +133,7 @@ def run(ctx):
     ctx.require_events('mono:run', 'file:checked', 'chunk-invariance', 'cube:nearest-slice')
     ctx.require_regimes('window:empty', 'window:single', 'chunk<n', 'chunk=n', 'window:default')
     ipk = 0
-    sizes = list(range(2, nexh + 1)) + ([6, 9] if ctx.quick else [6, 7, 8, 9])
+    sizes = list(range(2, nexh + 1)) + ([6, 9] if ctx.quick else [7, 8, 9])
     for n_w in sizes:
         for rep in range(2 if n_w <= nexh else 1):
             ipk += 1
